@@ -419,6 +419,16 @@ func (f *flow) Start(ctx context.Context) {
 							for _, handle := range flowHandlers {
 								handle(ctx)
 							}
+							if !flowed {
+								// this token took none of the flows itself (the new
+								// tokens carry on): it ends here instead of asking
+								// the node it never left for another action
+								f.tracer.Send(TerminationTrace{
+									FlowId: f.Id(),
+									Source: source,
+								})
+								return
+							}
 						} else {
 							// no flows to continue with, abort
 							f.tracer.Send(TerminationTrace{
